@@ -126,6 +126,26 @@ func runC15(c *Ctx) {
 			return
 		}
 	}
+	if c.T.Bool(1, 6) {
+		// a token minted under the same keys by a sibling instance whose clock runs a little
+		// ahead (its expiry lies 5 min plus 5-90 s from now): under the configured keys, right
+		// issuer, unexpired
+		ahead := time.Duration(5+c.T.Choose(86)) * time.Second
+		pl, _ := json.Marshal(map[string]any{"iss": "rdpgw", "sub": userName, "exp": time.Now().Add(5*time.Minute + ahead).Unix()})
+		var sib string
+		if signMode {
+			inner := []byte(codec.SignJWS([]byte(`{"alg":"HS256","typ":"JWT"}`), pl, "HS256", []byte(cfg.UserSigningKey)))
+			sib = codec.EncryptJWEDirA128CBCHS256([]byte(`{"alg":"dir","enc":"A128CBC-HS256","cty":"JWT","typ":"JWT"}`), inner, []byte(cfg.UserEncKey), c.T.Bytes(16, 2))
+		} else {
+			sib = codec.EncryptJWEDirA128CBCHS256([]byte(`{"alg":"dir","enc":"A128CBC-HS256","typ":"JWT"}`), pl, []byte(cfg.UserEncKey), c.T.Bytes(16, 2))
+		}
+		rs := ask("ti-sib", "GET", "?access_token="+url.QueryEscape(sib))
+		c.S.Count("probe.token_of_a_sibling_instance_with_clock_ahead")
+		if m := claimsOf(rs); rs.Status != 200 || m["sub"] != userName {
+			c.S.Fail("C15", "valid-token-refused", "mode=%s: a token under the configured keys, issuer rdpgw, expiring in %v (minted by an instance whose clock is %v ahead) yields %d %.80q", mode, 5*time.Minute+ahead, ahead, rs.Status, rs.Body)
+			return
+		}
+	}
 	trial := c.T.Choose(16)
 	var r *env.HTTPResult
 	kind := ""
